@@ -141,4 +141,34 @@ let () = each_line (fun line ->
           | PexDone (av', Some r) -> (av', rets @ [string_of_n r])
           | PexFault -> (av, rets @ ["FAULT"])) ([], []) toks in
       "OK ret=" ^ (if rets = [] then "-" else String.concat "," rets) ^ " avail=" ^ show_addrs av
+  | "PI" :: mx :: now :: toks ->
+      let addr_of_rec h =
+        let b = bytes_of_hex h in
+        (match parse_compact b, parse_compact6 b with
+         | POk [a], _ when List.length b = 6 -> a
+         | _, POk [a] when List.length b = 18 -> a
+         | _ -> failwith "addr") in
+      let key_of h = if String.length h = 8 then A4 (n_of_zt (BZ.of_string ("0x" ^ h)), N0) else A6 (n_of_zt (BZ.of_string ("0x" ^ h)), N0) in
+      let rec go = function
+        | [] -> []
+        | "I" :: h :: f :: r -> PiInsert (addr_of_rec h, f = "1") :: go r
+        | "S" :: h :: c :: lh :: r -> PiSet (key_of h, c = "1", n_of_string lh) :: go r
+        | "N" :: n :: r -> PiNow (n_of_string n) :: go r
+        | "T" :: a :: b :: r -> PiList (OpTracker (bytes_of_hex a, bytes_of_hex b)) :: go r
+        | "X" :: a :: r -> PiList (OpPex (bytes_of_hex a)) :: go r
+        | "B" :: a :: b :: r -> PiList (OpBuffer (bytes_of_hex a, bytes_of_hex b)) :: go r
+        | "R" :: a :: b :: r -> PiList (OpRaw (bytes_of_hex a, bytes_of_hex b)) :: go r
+        | _ -> failwith "pi-ops" in
+      show_pres (fun s ->
+          let show_pi p =
+            (match p.pi_key with A4 (a, _) -> "4." ^ hexn 8 a | A6 (a, _) -> "6." ^ hexn 32 a)
+            ^ "/" ^ string_of_n p.pi_lp ^ "/" ^ string_of_n p.pi_ap ^ "/" ^ (if p.pi_conn then "1" else "0") ^ "/" ^ string_of_n p.pi_lh in
+          let pis = List.sort compare (List.map show_pi s.ps_pi) in
+          "ret=" ^ (if s.ps_rets = [] then "-" else String.concat "," (List.map string_of_n s.ps_rets))
+          ^ " avail=" ^ show_addrs s.ps_av ^ " pi=" ^ (if pis = [] then "-" else String.concat "," pis))
+        (pi_run (n_of_string mx) (n_of_string now) (go toks))
+  | "H2" :: ev :: bodies ->
+      let bodies = List.map bytes_of_hex (List.filter (fun b -> b <> "~") bodies) in
+      let (h, evs) = http_two_families info_hash (n_of_string ev) bodies in
+      String.concat ";" (List.map (function HRetry -> "retry" | HEv e -> show_event e) evs) ^ " | " ^ show_ts h.h_ts
   | _ -> "BADCASE")
